@@ -207,7 +207,7 @@ def run_case(c):
     from ..core import run_sim
     from ..wholecore import heavy_gap, rand_wemask
     r = random.Random(c["seed"])
-    aw, dw = 12, 32
+    aw, dw = r.choice([12, 12, 28]), 32        # small and large address spaces (the top address bits must cross too)
 
     class DUT(Module):
         def __init__(self):
